@@ -222,7 +222,7 @@ class Ops:
                     ps = (ra[0] * rb[0], ra[0] * rb[1], ra[1] * rb[0], ra[1] * rb[1])
                     lo, hi = min(ps), max(ps)
                 if -(1 << (W - 1)) <= lo and hi <= (1 << (W - 1)) - 1:
-                    ctx.range_discharged = getattr(ctx, "range_discharged", 0) + 1
+                    ctx.ex.range_discharged = getattr(ctx.ex, "range_discharged", 0) + 1
                     if op == "*":
                         # multiplier-free encodings (the product provably does not wrap)
                         for x, y, rx in ((a, b, ra), (b, a, rb)):
